@@ -82,6 +82,9 @@ fn job_activity(v: &Value) -> Activity {
     if let Some(d) = demand(v) {
         dimens.set_job_demand(d);
     }
+    if v.get("reload").and_then(|r| r.as_bool()).unwrap_or(false) {
+        dimens.set_job_id("reload".to_string());
+    }
     let single = Arc::new(Single { places: vec![], dimens });
     Activity {
         place: APlace {
@@ -601,7 +604,19 @@ fn main() {
     let f_cost = builder().build_minimize_cost().unwrap();
     let f_dist = builder().build_minimize_distance().unwrap();
     let f_dur = builder().build_minimize_duration().unwrap();
-    let f_cap = CapacityFeatureBuilder::<SingleDimLoad>::new("capacity").set_violation_code(ViolationCode(2)).build().unwrap();
+    let has_reload = case["jobs"].as_array().is_some_and(|jobs| jobs.iter().any(|j| j.get("reload").and_then(|r| r.as_bool()).unwrap_or(false)));
+    let f_cap = if has_reload {
+        // capacity with reload intervals: the marker is the activity whose job id is "reload"
+        ReloadFeatureFactory::<SingleDimLoad>::new("capacity")
+            .set_capacity_code(ViolationCode(2))
+            .set_is_reload_single(|single| single.dimens.get_job_id().is_some_and(|id| id == "reload"))
+            .set_belongs_to_route(|_, _| true)
+            .set_load_schedule_threshold(|capacity: &SingleDimLoad| *capacity)
+            .build_simple()
+            .unwrap()
+    } else {
+        CapacityFeatureBuilder::<SingleDimLoad>::new("capacity").set_violation_code(ViolationCode(2)).build().unwrap()
+    };
     let limit_distance = case.get("limit_distance").and_then(|v| v.as_f64());
     let limit_duration = case.get("limit_duration").and_then(|v| v.as_f64());
     let f_limit = {
